@@ -1692,6 +1692,7 @@ fn main() {
                 || ((f.class == "shift-imm" || f.class == "shift-cl") && ["shl", "shr", "sar", "rol", "ror"].contains(&f.mnem.as_str()) && o0.map_or(false, |d| regop(d) || memok(d)))
                 || f.coq.starts_with("(IJmpRel") || f.coq.starts_with("(IRet ") || f.coq == "IRet0" || f.coq.starts_with("(ILoop") || f.coq.starts_with("(IJcxz") || f.coq.starts_with("(IJcc")
                 || (f.class == "bt" && f.coq.starts_with("(IBt") && o0.map_or(false, |d| regop(d) || (memok(d) && o1.is_none())))
+                || (f.class == "cmov" && o1.map_or(false, |d| regop(d) || memok(d)))
                 || f.coq.starts_with("(ICallRel") || (f.coq.starts_with("(ICallInd") && o0.map_or(false, |d| regop(d) || memok(d)))
                 || (f.coq.starts_with("(IJmpInd") && o0.map_or(false, |d| regop(d) || memok(d)))
                 || (f.class == "unary" && ["inc", "dec", "neg", "not"].contains(&f.mnem.as_str()) && o0.map_or(false, |d| regop(d) || memok(d)))
@@ -1703,8 +1704,11 @@ fn main() {
             // ... of which also covered by a sim theorem (Props/C01.v); memory forms: under the no-wrap state condition
             let mem_dst = o0.map_or(false, |d| memok(d));
             let _ = mem_dst;
-            let excluded = (f.mnem == "xor" && f.ops.len() == 2 && f.ops[0] == f.ops[1]) || f.mnem == "setp" || f.mnem == "setnp" || f.mnem == "jp" || f.mnem == "jnp" || f.coq == "(ICallInd (OReg 4))";
+            let excluded = (f.mnem == "xor" && f.ops.len() == 2 && f.ops[0] == f.ops[1]) || f.mnem == "setp" || f.mnem == "setnp" || f.mnem == "jp" || f.mnem == "jnp" || f.coq == "(ICallInd (OReg 4))" || (f.class == "cmov" && (f.mnem == "cmovp" || f.mnem == "cmovnp" || o1.map_or(false, |d| memok(d))));
             if mirrored && !excluded { bump("encodings:sim-theorem-and-tie", 1); }
+            // per mnemonic class: theorem+tie / tie only / processor+specification on sampled states / processor only
+            let kind = if mirrored && !excluded { "theorem+tie" } else if mirrored { "tie-only" } else if spec { "sampled:cpu+spec" } else { "sampled:cpu-only" };
+            bump(&format!("byclass:{}:{}", f.class, kind), 1);
         }
         let mname = if f.mode == Mode::M64 { "amd64" } else { "x86" };
         let mut tags = vec![format!("mode:{}", mname), format!("class:{}", f.class), format!("lift:{}", lkind), format!("mnem:{}", f.mnem.split(' ').last().unwrap_or("")), format!("sz:{}", f.sz)];
